@@ -360,6 +360,12 @@ def step (line : String) : Option String :=
         let fk ← (match fk with | "unit" => some FooterKind.unit | "vec" => some FooterKind.vec | _ => none)
         let s ← ofHex s
         some (showRes ((tokRt be p fk s).map (fun (sh, f) => toHex sh ++ " " ++ toHex f)))
+      else if op == "tokc.rt" then do
+        let be ← Backend.ofString? be
+        let p ← (← Kind.ofString? p).toPurpose?
+        let fk ← (match fk with | "unit" => some FooterKind.unit | "vec" => some FooterKind.vec | _ => none)
+        let s ← ofHex s
+        some (showRes ((tokRtSuf be p fk [99] s).map (fun (sh, f) => toHex sh ++ " " ++ toHex f)))
       else if op == "txt.rt" || op == "sd.txt.rt" then do
         let be ← Backend.ofString? be
         let k ← Kind.ofString? fk
